@@ -27,6 +27,7 @@ type PageLoc struct {
 	RGFirst   int64 // first row of the row group in the file
 	RGRows    int64
 	DictEnc   bool // data page is dictionary encoded
+	Type      string
 }
 
 // fileLayout walks every column chunk of a fault-free file.
@@ -61,7 +62,7 @@ func fileLayout(data []byte) ([]PageLoc, *parquet.File, error) {
 					RowGroup: gi, Column: ci, Path: fmt.Sprint(m.PathInSchema),
 					HeaderOff: off, BodyOff: off + hlen, BodyLen: int64(h.CompressedPageSize),
 					CRC: uint32(h.CRC), HasCRC: h.CRC != 0,
-					RGFirst: rgFirst, RGRows: rg.NumRows, DataIndex: -1,
+					RGFirst: rgFirst, RGRows: rg.NumRows, DataIndex: -1, Type: h.Type.String(),
 				}
 				switch h.Type {
 				case format.DictionaryPage:
